@@ -30,6 +30,13 @@ from harness.verdict import Run
 
 PID = "C07"
 UNK = ("tp_unknown", "lt_unknown")
+_SCRATCH = []
+
+
+def _cleanup():
+    import shutil
+    while _SCRATCH:
+        shutil.rmtree(_SCRATCH.pop(), ignore_errors=True)
 
 
 # ------------------------------------------------------------------------------------ TLC (R1)
@@ -90,7 +97,8 @@ def _load_latency(isa):
 
 
 def _build(isa, forms, tag, mirror_isa=False):
-    d = env.scratch("c07-" + tag)
+    d = env.scratch("c07-%s-%d" % (tag, os.getpid()))
+    _SCRATCH.append(d)
     a = synth.write_arch_model(os.path.join(d, "model.yml"), isa, ["0", "1", "2", "3"], forms,
                                load_default=[[1, "2"]], store_default=[[1, "3"]],
                                load_latency=_load_latency(isa))
@@ -860,6 +868,7 @@ def main(tier, seed):
     run.assume("entries whose declaration is outside the kind vocabulary (no register class, unknown class names, "
                "scale without index, ...) are counted as unprojectable/unrenderable and belong to C15")
     run.assume("TLC acts as evaluator of finite tables here (DESIGN section 8); the state-machine content is the entry scan")
+    _cleanup()
     return run.finish()
 
 
@@ -924,4 +933,5 @@ def replay(path):
              _case("replay|assign_src_dst", isa, qname, qops, ents, iown)]
     rej, _ = tlc.batch_validate("Trace_Lookup", "Trace_Lookup", cases, tag="c07-replay")
     print("specification:", [(cid, clause) for cid, clause, _ in rej] if rej else "accepts both lookups")
+    _cleanup()
     return 1 if rej else 0
